@@ -60,6 +60,10 @@ def local_callee_bodies(F, cs, crate=None):
     """workspace bodies a call site may dispatch to (by resolved def path, generics stripped)"""
     from .facts import strip_generics
     out = []
+    by_uid = getattr(F, "by_uid", {})
+    for u in (cs.callee.get("resolved_uid"), cs.callee.get("uid")):
+        if u and u in by_uid and not by_uid[u].crate.endswith("#test"):
+            return [by_uid[u]]
     for cand in (cs.callee.get("resolved"), cs.callee.get("def")):
         if not cand:
             continue
@@ -79,6 +83,9 @@ def closure_args(F, cs):
     out = []
     for ent in cs.callee.get("fn_args", []):
         if ent[1] == "closure":
+            if len(ent) > 3 and ent[3] in getattr(F, "by_uid", {}):
+                out.append(F.by_uid[ent[3]])
+                continue
             for b in F.bodies.values():
                 if b.def_ == ent[2] and b.crate == cs.body.crate:
                     out.append(b)
@@ -87,6 +94,10 @@ def closure_args(F, cs):
         if l is not None:
             h = cs.body.locals[l].get("head", {})
             if "closure" in h:
+                if h.get("closure_uid") in getattr(F, "by_uid", {}):
+                    if F.by_uid[h["closure_uid"]] not in out:
+                        out.append(F.by_uid[h["closure_uid"]])
+                    continue
                 for b in F.bodies.values():
                     if b.def_ == h["closure"] and b.crate == cs.body.crate and b not in out:
                         out.append(b)
@@ -272,6 +283,8 @@ def closure_for_operand(F, body, op):
         return None
     h = body.locals[l].get("head", {})
     if "closure" in h:
+        if h.get("closure_uid") in getattr(F, "by_uid", {}):
+            return F.by_uid[h["closure_uid"]]
         return F.bodies.get((body.crate, h["closure"]))
     return None
 
